@@ -101,10 +101,83 @@ def build_parol_ls(chk):
     return r.returncode == 0
 
 
+def tsan_slice(chk, prop, seed):
+    """C29 thorough only: the same histories against a ThreadSanitizer build of parol-ls (the one
+    place in the repository where state crosses threads). A TSan report is a violation; a server that
+    cannot be built or run instrumented makes the slice inconclusive (noted, not failed)."""
+    import os, subprocess, time, glob, json
+    e = chk.env()
+    e["CARGO_TARGET_DIR"] = os.path.join(chk.TARGET, "ls-tsan")
+    e["RUSTFLAGS"] = "-Zsanitizer=thread --cfg parol_verif"
+    t = time.time()
+    with open(os.path.join(chk.WORK, "build.parol-ls-tsan.log"), "w") as lf:
+        try:
+            r = subprocess.run(["cargo", "+nightly", "build", "-Zbuild-std", "--target", "x86_64-unknown-linux-gnu",
+                                "--offline", "-p", "parol-ls", "--manifest-path", "/repo/Cargo.toml"],
+                               cwd="/repo", env=e, stdout=lf, stderr=subprocess.STDOUT, timeout=3600)
+            rc = r.returncode
+        except subprocess.TimeoutExpired:
+            rc = -999
+    chk.log(f"build parol-ls (ThreadSanitizer): rc={rc} {time.time() - t:.1f}s")
+    exe = os.path.join(chk.TARGET, "ls-tsan", "x86_64-unknown-linux-gnu", "debug", "parol-ls")
+    if rc != 0 or not os.path.exists(exe):
+        chk.log("note: ThreadSanitizer build of parol-ls not available; slice skipped (inconclusive)")
+        return []
+    for f in glob.glob(os.path.join(chk.WORK, "C29.tsanlog*")):
+        os.remove(f)
+    os.environ["PV_PAROL_LS"] = exe
+    os.environ["TSAN_OPTIONS"] = f"halt_on_error=0 exitcode=0 log_path={os.path.join(chk.WORK, 'C29.tsanlog')}"
+    try:
+        rc, res = chk.run_pv(prop, "thorough", seed + 15485863, "release", 0.15, 600, ["--case-limit-s", "600"])
+    finally:
+        os.environ.pop("PV_PAROL_LS", None)
+        os.environ.pop("TSAN_OPTIONS", None)
+    out = os.path.join(chk.WORK, f"{prop}.release.json")
+    tagged = os.path.join(chk.WORK, f"{prop}.tsan.json")
+    if os.path.exists(out):
+        os.replace(out, tagged)
+    if res is None:
+        chk.log("note: ThreadSanitizer slice produced no result (inconclusive)")
+        return []
+    reports = []
+    for f in sorted(glob.glob(os.path.join(chk.WORK, "C29.tsanlog*"))):
+        txt = open(f, errors="replace").read()
+        if "WARNING: ThreadSanitizer" in txt:
+            reports.append((f, txt))
+    res["observed_too_little"] = False
+    if rc == 3:
+        rc = 0
+    res.setdefault("extra", {})["tsan_reports"] = len(reports)
+    for f, txt in reports[:3]:
+        res.setdefault("violations", []).append({
+            "signature": {"kind": "thread-sanitizer-report"},
+            "what": "ThreadSanitizer reported a data race in parol-ls while the C29 histories ran: " + " ".join(txt.split()[:80]),
+            "witness": {"tsan_log": f}})
+        rc = 1
+    chk.log(f"ThreadSanitizer slice: rc={rc} evaluations={res.get('evaluations')} reports={len(reports)}")
+    return [("tsan", rc, res)]
+
+
 def lsp_engine(chk, prop, tier, seed, replay, t0):
     if not build_parol_ls(chk):
         chk.log("BROKEN: parol-ls does not build")
         return 3
+    if prop == "C29" and tier == "thorough" and not replay:
+        results = []
+        for tag, scale, share in (("checked", 1.0, 0.6), ("release", 0.5, 0.4)):
+            if not chk.build(tag):
+                results.append((tag, -1, None))
+                continue
+            rc, res = chk.run_pv(prop, tier, seed + (0 if tag == "checked" else 7919), tag, scale, int(THOROUGH_BUDGET * share), [])
+            if tag == "release":
+                # keep the release result under its own name: the TSan slice reuses the release monitor
+                import os
+                src = os.path.join(chk.WORK, f"{prop}.release.json")
+                if os.path.exists(src):
+                    os.replace(src, os.path.join(chk.WORK, f"{prop}.release-main.json"))
+            results.append((tag, rc, res))
+        results.extend(tsan_slice(chk, prop, seed))
+        return chk.merge_and_report(prop, tier, seed, results, chk.ASSUME, t0)
     return default_engine(chk, prop, tier, seed, replay, t0)
 
 
